@@ -88,7 +88,9 @@ def gen_selection(rng, n, tier):
         expr = {None: None, "glob": rng.choice(GLOBS), "regex": rng.choice(REGEXES), "template": rng.choice(TEMPLATES)}[kind]
         if kind == "regex" and expr == "":
             kind, expr = None, None
-        yield {"spec": spec, "roots": roots, "explicit": explicit, "mode": mode, "recursive": rng.random() < 0.5,
+        # (the order in which directories and explicitly named files appear on the command line must not matter)
+        yield {"input_order": rng.choice(["dirs_first", "files_first", "interleaved"]) if explicit else "dirs_first",
+               "spec": spec, "roots": roots, "explicit": explicit, "mode": mode, "recursive": rng.random() < 0.5,
                "hidden": rng.random() < 0.4, "filter_kind": kind, "filter": expr, "invert": rng.random() < 0.35,
                "strategy": "stop", "answers": [], "plan": {}, "order": {}, "sorted": False, "invert_sort": False,
                "dry": True, "answer_style": 0, "spelling": rng.choice(["abs", "abs", "rel", "dotted"]),
